@@ -13,7 +13,6 @@ import (
 	"hash"
 	"maps"
 	"math"
-	"path/filepath"
 	"runtime"
 	"slices"
 	"sort"
@@ -492,17 +491,11 @@ func (t *RaftTransaction) ListPage(ctx context.Context, prefix string, after str
 	}
 
 	prefixBytes := []byte(prefix)
-	fullAfter := filepath.Join(prefix, after)
-	seekPrefix := []byte(fullAfter)
-	if after == "" {
-		seekPrefix = prefixBytes
-	} else if !bytes.HasPrefix(seekPrefix, prefixBytes) {
-		// filepath.Join cleans the joined path, so for after="." or
-		// after="../x" the result no longer starts with prefix; seeking
-		// there fails the initial HasPrefix check below and skips all
-		// results. Mirror listPageInner and start at the prefix instead.
-		seekPrefix = prefixBytes
-	}
+
+	// Start at the first key that can sort after 'after': the plain
+	// concatenation, as in listPageInner (a cleaned path would change the
+	// byte order for values of 'after' such as "./x" or "a/../x").
+	seekPrefix := []byte(prefix + after)
 
 	// Assume the bucket exists and has keys.
 	c := t.tx.Bucket(dataBucketName).Cursor()
